@@ -41,31 +41,10 @@ def gen(rs, tier):
 
 
 def min_alloc(out, keep, cons, phases, N, t):
-    """Uninterrupted charging (documented preprocessing): every session is pre-granted its EVSE's minimum pilot, in order
-    of remaining time (less time first), if that is feasible; a refused session gets nothing in this period.
-    Returns {station index: (lower bound, refused?)} or None when the outcome hinges on a tie / a guard-band decision."""
-    rem_time = lambda x: max(0, min(x["departure"] - x["arrival"], x["departure"] - t))
-    order = sorted(keep, key=rem_time)
-    ties = len({rem_time(x) for x in keep}) < len(keep)
-    rates = [0.0] * N
-    lbs = {}
-    refused = False
-    for x in order:
-        i = x["i"]
-        rates[i] = x["min_pilot"]
-        ok, concl = alloc.feasible(cons, phases, rates)
-        if not concl:
-            return None
-        if ok:
-            lbs[i] = (x["min_pilot"], False)
-        else:
-            rates[i] = 0.0
-            lbs[i] = (0.0, True)
-            refused = True
-    if refused:
+    """See models.alloc.min_alloc (order-independent replay of the documented minimum-pilot pre-allocation)."""
+    lbs, refused = alloc.min_alloc(keep, cons, phases, N, t)
+    if lbs is not None and refused:
         out.probe("min_pilot_refused")
-        if ties:
-            return None
     return lbs
 
 
